@@ -58,6 +58,49 @@ def build(T, cls, times, steps, fullpos, k0):
     return lst, log
 
 
+def attach_tables(T, lst, rows):
+    r0, r1, ca, cb = rows
+    lst._table = {'element': T.listingtable(['P', 'T'], [r0, r1]),
+                  'connection': T.listingtable(['FLOW'], [(ca, cb)], num_keys=2, allow_reverse_keys=True)}
+    lst.short_types = ['ESHORT']
+    lst.short_indices = {'ESHORT': {0: 0}}
+
+
+def bad_selection(variant, names, rows):
+    if variant == 'unknown-block': return ('e', names[0], 'P')
+    if variant == 'unknown-connection': return ('c', (names[0], names[1]), 'FLOW')
+    if variant == 'two-invalid': return [('e', names[0], 'T'), ('c', (names[1], names[2]), 'FLOW')]
+    if variant == 'unknown-table-letter': return ('x', rows[0], 'P')
+    if variant == 'table-not-in-listing': return ('g', (rows[0], rows[1]), 'P')
+    raise ValueError(variant)
+
+
+def replay_badhist(d):
+    import numpy as np
+    import t2listing as T
+    n, k0 = int(d['n']), int(d['k0'])
+    times = as_numbers(d['times']); steps = np.array([int(s) for s in d['steps']])
+    fullpos = [1000 + 137 * k * k + 61 * k for k in range(n)]
+    lst, log = build(T, 't2listing', times, steps, fullpos, k0)
+    attach_tables(T, lst, d['rows'])
+    sel = bad_selection(d['variant'], d['names'], d['rows'])
+    before = (lst.index, lst.time, lst.step)
+    try:
+        res = lst.history(sel)
+    except Exception as ex:
+        return True, 'history(%r) raised %s: %s' % (sel, type(ex).__name__, ex)
+    probs = []
+    if res is not None: probs.append('returned %r instead of None' % (res,))
+    after = (lst.index, lst.time, lst.step)
+    if after != before: probs.append('index/time/step were %r, now %r' % (before, after))
+    if log: probs.append('file activity although nothing is extracted: %r' % (log[:4],))
+    moved = lst.next()
+    if bool(moved) != (k0 < n - 1) or int(lst.index) != min(k0 + 1, n - 1):
+        probs.append('next() afterwards returned %r and went to index %r (was at %d of %d)' % (moved, lst.index, k0, n))
+    if probs: return True, 'history(%r) with no valid specification, listing at index %d of %d: %s' % (sel, k0, n, '; '.join(probs))
+    return False, 'invalid history request leaves the listing untouched: %r' % (d,)
+
+
 def replay_sequence(d):
     import numpy as np
     import t2listing as T
@@ -65,8 +108,11 @@ def replay_sequence(d):
     times = as_numbers(d['times']); steps = np.array([int(s) for s in d['steps']])
     fullpos = [1000 + 137 * k * k + 61 * k for k in range(n)]
     lst, log = build(T, 't2listing', times, steps, fullpos, k0)
+    if 'rows' in d: attach_tables(T, lst, d['rows'])
     try:
         for a, x in zip(d['sequence'], d['args']):
+            if a == 'badhist':
+                lst.history(('e', x['names'][0], 'P')); continue
             x = num(x)
             if a == 'index': lst.index = int(x)
             elif a == 'first': lst.first()
@@ -96,6 +142,7 @@ def replay(d):
     import numpy as np
     import t2listing as T
     if 'sequence' in d: return replay_sequence(d)
+    if d.get('action') == 'badhist': return replay_badhist(d)
     cls, action, n, k0 = d['cls'], d['action'], int(d['n']), int(d['k0'])
     times = as_numbers(d['times'])
     steps = np.array([int(s) for s in d['steps']])
